@@ -47,7 +47,8 @@ var worldSerial int64
 var defaultMaxDocSize = rosmar.MaxDocSize
 var maxDocMu sync.Mutex
 
-var allCollNames = []string{"_default._default", "s1.c1", "s1.c2", "s2.c1"}
+// ("s1.C1" and "s1.c1" differ only in letter case: they are different collections)
+var allCollNames = []string{"_default._default", "s1.c1", "s1.C1", "s1.c2", "s2.c1"}
 
 func dsName(s string) sgbucket.DataStoreNameImpl {
 	for i := 0; i < len(s); i++ {
